@@ -40,6 +40,11 @@ def conforms(value, announced):
         return False
     if issubclass(announced, SET_KIND):
         return isinstance(value, SET_KIND)
+    if issubclass(announced, dict) and (announced is dict or announced.__module__.startswith('beanquery')):
+        return isinstance(value, dict)           # Metadata(dict) is a marker subclass used to pick the renderer
+    if issubclass(announced, types.Structure):
+        # a structured type describes the Python class of the same name (beancount.core.data.Open for `open`)
+        return type(value).__name__.lower() == announced.name
     if issubclass(announced, SEQ_KIND) and not hasattr(announced, '_fields'):
         return isinstance(value, SEQ_KIND) and not hasattr(value, '_fields')
     return isinstance(value, announced)
@@ -460,4 +465,225 @@ def run_overload_case(case):
             except Exception as e:  # noqa: BLE001
                 k = type(e).__name__
                 res['other_exc'][k] = res['other_exc'].get(k, 0) + 1
+    return res
+
+
+# ------------------------------------------------------------------ sweep 1b: IN / NOT IN over every pair of operand types
+# (Compiler._inop takes OPERATORS[In][0] without looking at the operand types: every pair is accepted)
+
+def in_cases(rng, nrows):
+    out = []
+    for opname in ('In', 'NotIn'):
+        for li, lt in enumerate(ANY_TYPES):
+            for ri, rt in enumerate(ANY_TYPES):
+                out.append({'op': opname, 'li': li, 'ri': ri, 'seed': rng.randrange(1 << 30), 'nrows': nrows})
+    return out
+
+
+def run_in_case(case):
+    lt, rt = ANY_TYPES[case['li']], ANY_TYPES[case['ri']]
+    rng = random.Random(case['seed'])
+    sig = f'{case["op"]}(left={tshort(lt)},right={tshort(rt)})'
+    res = {'sig': sig, 'op': case['op'], 'right': tshort(rt), 'left': tshort(lt), 'cells': 0, 'rows': 0, 'fails': [],
+           'other_exc': {}, 'status': 'ok'}
+    conn = context_connection()
+    table = impl.make_table('t', [('c0', lt), ('c1', rt)], [])
+    conn.tables['t'] = table
+    sql = f'SELECT {OP_SYNTAX[case["op"]].format("c0", "c1")} AS r FROM #t'
+    res['sql'] = sql
+    try:
+        q = compiler.compile(conn, parser.parse(sql))
+    except beanquery.CompilationError as e:
+        res['status'] = 'rejected'
+        return res
+    rows, nulls = make_rows(rng, [lt, rt], case['nrows'])
+    for r in rows + nulls:
+        table.rows = [r]
+        inp = [tuple(describe_value(v) for v in r)]
+        try:
+            desc, out = query_execute.execute_query(q)
+        except TYPE_ERRORS as e:
+            res['fails'].append({'class': 'type-error', 'exc': type(e).__name__, 'where': sql, 'input': inp, 'value': str(e)[:200]})
+            continue
+        except Exception as e:  # noqa: BLE001
+            k = type(e).__name__
+            res['other_exc'][k] = res['other_exc'].get(k, 0) + 1
+            continue
+        res['rows'] += 1
+        res['cells'] += check_result(desc, out, res['fails'], sql, inp)
+    return res
+
+
+# ------------------------------------------------------------------ sweep 2: Beancount-backed tables
+# Statements of this sweep are built as ASTs directly (TatSu costs 10-50 ms per statement; there are ~2000 per
+# ledger); the BQL text is kept for reports and replay, and a sample of the texts is parsed by the real parser on
+# every run and compared with the built AST (`ast_builder_checked`).
+
+from beanquery.parser import ast as bast  # noqa: E402
+
+META_KEYS = ['trip', 'color', 'note', 'filename', 'lineno', 'amount-meta', 'when', 'rank', 'name', 'nokey']
+LITS = {
+    str: [("'USD'", 'USD'), ("'EUR'", 'EUR'), ("'HOOL'", 'HOOL'), ("'trip'", 'trip'), ("'Assets'", 'Assets'), ("'Bank'", 'Bank'),
+          ("'month'", 'month'), ("'1 month'", '1 month'), ("'color'", 'color'), ("':'", ':')],
+    int: [('1', 1), ('2', 2), ('0', 0)],
+    D: [('1.5', D('1.5')), ('0.0', D('0.0'))],
+    date: [('2020-01-05', date(2020, 1, 5)), ('2019-12-31', date(2019, 12, 31))],
+    bool: [('TRUE', True)],
+}
+INTERVALS = ['1 month', '7 days']
+OP_AST = {
+    'Not': bast.Not, 'Neg': bast.Neg, 'IsNull': bast.IsNull, 'IsNotNull': bast.IsNotNull, 'Mul': bast.Mul, 'Div': bast.Div,
+    'Mod': bast.Mod, 'Add': bast.Add, 'Sub': bast.Sub, 'Match': bast.Match, 'NotMatch': bast.NotMatch, 'In': bast.In,
+    'NotIn': bast.NotIn, 'Equal': bast.Equal, 'NotEqual': bast.NotEqual, 'Greater': bast.Greater, 'GreaterEq': bast.GreaterEq,
+    'Less': bast.Less, 'LessEq': bast.LessEq, 'Between': bast.Between,
+}
+
+
+def call_ast(kind, name, args):
+    """args: [(text, astnode)]"""
+    nodes = [a for _, a in args]
+    if kind == 'operator':
+        return OP_AST[name](*nodes)
+    return bast.Function(name, nodes)
+
+
+def select_ast(expr, table):
+    targets = expr if isinstance(expr, bast.Asterisk) else [bast.Target(expr, 'r')]
+    return bast.Select(targets, bast.Table(table), None, None, None, None, None, None)
+
+
+def structured(dtype):
+    alias = types.ALIASES.get(dtype, dtype)
+    if isinstance(alias, type) and issubclass(alias, types.Structure):
+        return alias
+    return None
+
+
+def column_paths(table):
+    """[(text, ast, dtype)]: every column, every attribute path through structured types (depth <= 3), every
+    subscript of dict-like ones."""
+    out = []
+
+    def walk(text, node, dtype, depth):
+        out.append((text, node, dtype))
+        if isinstance(dtype, type) and issubclass(dtype, dict):
+            for k in META_KEYS:
+                out.append((f"{text}['{k}']", bast.Subscript(node, k), object))
+        st = structured(dtype)
+        if st is not None and depth < 3:
+            for an, getter in st.columns.items():
+                walk(f'{text}.{an}', bast.Attribute(node, an), getter.dtype, depth + 1)
+    for cn, col in table.columns.items():
+        walk(cn, bast.Column(cn), col.dtype, 0)
+    return out
+
+
+def ledger_queries(conn, rng, per_overload):
+    """[(tag, sql, ast)] for one connection (the schema is the same for every ledger; the choice of arguments is random)."""
+    qs = []
+    for tname_, table in conn.tables.items():
+        if not tname_:
+            continue
+        paths = column_paths(table)
+        for text, node, _ in paths:
+            qs.append((f'column:{tname_}.{text.split("[")[0]}', f'SELECT {text} AS r FROM #{tname_}', select_ast(node, tname_)))
+        qs.append((f'wildcard:{tname_}', f'SELECT * FROM #{tname_}', select_ast(bast.Asterisk(), tname_)))
+        # every function / operator overload fed with columns / attribute paths of this table where the types allow it
+        typed = [(text, node, dt) for text, node, dt in paths if isinstance(dt, type)]
+        for kind, name, cls, intypes in overloads():
+            if not intypes or any(t is types.Asterisk for t in intypes):
+                continue
+            if name in ('min', 'max') or (kind == 'operator' and name in ('In', 'NotIn')):
+                continue      # covered by sweep 1 / 1b under their own signatures
+            if name in LEDGER_ONLY and tname_ != 'postings' and not (name == 'has_account' and tname_ == 'entries'):
+                continue
+            choices = []
+            ok = True
+            for t in intypes:
+                cands = [(text, node) for text, node, dt in typed if t is types.Any or t in types._bases(dt)]
+                lits = [] if t is types.Any else [(txt, bast.Constant(v)) for txt, v in LITS.get(t, [])]
+                if t is relativedelta:
+                    lits = [(f"interval('{x}')", bast.Function('interval', [bast.Constant(x)])) for x in INTERVALS]
+                choices.append((cands, lits))
+                if not cands and not lits:
+                    ok = False
+            if not ok or not any(c for c, _ in choices):
+                continue
+            seen = set()
+            for _ in range(per_overload * 3):
+                args, usedcol = [], False
+                for cands, lits in choices:
+                    if cands and (not lits or rng.random() < 0.7):
+                        args.append(rng.choice(cands))
+                        usedcol = True
+                    else:
+                        args.append(rng.choice(lits))
+                if not usedcol:
+                    continue
+                text = expr_text(kind, name, [a for a, _ in args])
+                if text in seen:
+                    continue
+                seen.add(text)
+                sig = f'{name}({",".join(tshort(t) for t in intypes)})'
+                qs.append((f'call:{sig}', f'SELECT {text} AS r FROM #{tname_}', select_ast(call_ast(kind, name, args), tname_)))
+                if len(seen) >= per_overload:
+                    break
+    return qs
+
+
+def ast_builder_check(rng, n):
+    """Parse a sample of the sweep's statements with the real parser and compare with the ASTs the sweep builds."""
+    conn = context_connection()
+    qs = ledger_queries(conn, rng, 1)
+    bad = []
+    sample = rng.sample(qs, min(n, len(qs)))
+    for tag, sql, node in sample:
+        if parser.parse(sql) != node:
+            bad.append(sql)
+    return len(sample), bad
+
+
+def run_ledger_case(case):
+    """case: {'text': ledger text, 'seed', 'per_overload'} -> summary + failures"""
+    rng = random.Random(case['seed'])
+    path = write_ledger(case['text'], f'led{os.getpid()}.beancount')
+    res = {'queries': 0, 'cells': 0, 'rows': 0, 'rejected': 0, 'fails': [], 'other_exc': {}, 'tables': {}, 'renders': 0,
+           'tags': {}, 'load_errors': 0, 'columns': 0}
+    try:
+        conn = beanquery.connect('beancount:' + path)
+    finally:
+        os.unlink(path)
+    res['load_errors'] = len(conn.errors)
+    for tn, t in conn.tables.items():
+        if tn:
+            res['tables'][tn] = sum(1 for _ in t)
+    for tag, sql, node in ledger_queries(conn, rng, case['per_overload']):
+        res['queries'] += 1
+        kindtag = tag.split(':')[0]
+        res['tags'][kindtag] = res['tags'].get(kindtag, 0) + 1
+        try:
+            cur = conn.execute(node)
+            rows = cur.fetchall()
+            desc = cur.description
+        except beanquery.CompilationError:
+            res['rejected'] += 1
+            continue
+        except TYPE_ERRORS as e:
+            res['fails'].append({'tag': tag, 'class': 'type-error', 'exc': type(e).__name__, 'where': sql, 'value': str(e)[:200]})
+            continue
+        except Exception as e:  # noqa: BLE001
+            k = type(e).__name__
+            res['other_exc'][k] = res['other_exc'].get(k, 0) + 1
+            continue
+        res['rows'] += len(rows)
+        fails = []
+        res['cells'] += check_result(desc, rows, fails, sql, None)
+        for f in fails[:1]:
+            f['tag'] = tag
+            res['fails'].append(f)
+        if not fails:
+            res['renders'] += 1
+            err = render_check(desc, rows)
+            if err:
+                res['fails'].append({'tag': tag, 'class': f'render-raises:{err.split(":")[0]}', 'where': sql, 'value': err})
     return res
